@@ -118,6 +118,7 @@ type plan struct {
 	CP    cpSpec
 	Cache cacheSpec
 
+	PTxn        float64
 	DropAfter   int64 // >0: the source cuts the first replica connection of the reconnect after that many payload bytes
 	Constructed []string
 	Behind      bool // failover: the new master has produced less than the stored position when the tool reconnects
@@ -129,10 +130,10 @@ type infeasible struct{ why string }
 
 func (e infeasible) Error() string { return "infeasible: " + e.why }
 
-func growPiece(r *rand.Rand, h *history, tag string, until int64, min int) {
+func growPiece(r *rand.Rand, h *history, tag string, until int64, min int, ptxn float64) {
 	n := 0
 	for n < min || h.End() < until {
-		h.appendPiece(genPiece(r, fmt.Sprintf("%s%d", tag, n), 3+r.Intn(4)))
+		h.appendPiece(genPiece(r, fmt.Sprintf("%s%d", tag, n), 3+r.Intn(4), ptxn))
 		n++
 		if n > 400 {
 			panic("growPiece runaway")
@@ -220,7 +221,13 @@ func buildPlan(r *rand.Rand, c combo) (*plan, error) {
 	p.B1 = int64(1000 + r.Intn(1000000))
 	p.ID1 = randID(r)
 	p.H1 = newHistory(p.ID1, p.B1)
-	p.H1.appendPiece(genPiece(r, "a", 6+r.Intn(10)))
+	// (with a connection cut inside the stream a source transaction may be torn; keep that for the
+	// checks about transactions: the cut scenarios carry none)
+	p.PTxn = 0.06
+	if c.Drop {
+		p.PTxn = 0
+	}
+	p.H1.appendPiece(genPiece(r, "a", 6+r.Intn(10), p.PTxn))
 	st, id := sentinelPiece("ea", p.H1.Cmds[len(p.H1.Cmds)-1].DB)
 	p.H1.appendPiece(st)
 	p.End1 = id
@@ -229,7 +236,7 @@ func buildPlan(r *rand.Rand, c combo) (*plan, error) {
 	p.S2 = genSnapshot(r, "s2")
 	p.HbReply, p.HbRDB = r.Intn(3), r.Intn(3)
 	// what the old master produced while the tool was away
-	growPiece(r, p.H1, "g", 0, 2)
+	growPiece(r, p.H1, "g", 0, 2, p.PTxn)
 	P1 := p.L1End
 	natural := c.Cache == "natural"
 
@@ -297,7 +304,7 @@ func buildPlan(r *rand.Rand, c combo) (*plan, error) {
 		cacheCovers := c.Cache == "natural" || c.Cache == "log-only" // a cache under the first id decides by itself
 		if havePos && c.Pid == "id1" && p.CP.Off > p.S && !cacheCovers && r.Intn(10) < 7 {
 			for p.CP.Off-p.H2.End() > 400 {
-				p.H2.appendPiece(genPiece(r, fmt.Sprintf("d%d", len(p.H2.Cmds)), 1+r.Intn(3)))
+				p.H2.appendPiece(genPiece(r, fmt.Sprintf("d%d", len(p.H2.Cmds)), 1+r.Intn(3), p.PTxn))
 			}
 			if p.CP.Off-p.H2.End() >= 60 && padTo(p.H2, "dp", p.CP.Off) {
 				p.Aligned = true
@@ -310,7 +317,7 @@ func buildPlan(r *rand.Rand, c combo) (*plan, error) {
 		} else {
 			p.Behind = true
 		}
-		growPiece(r, p.H2, "dd", until, r.Intn(2))
+		growPiece(r, p.H2, "dd", until, r.Intn(2), p.PTxn)
 	case "newid":
 		b3 := ref - int64(1+r.Intn(400))
 		if r.Intn(4) == 0 {
@@ -323,7 +330,7 @@ func buildPlan(r *rand.Rand, c combo) (*plan, error) {
 		if r.Intn(2) == 0 {
 			p.SrcID2 = randID(r)
 		}
-		growPiece(r, p.H2, "p", p.H1.End()+int64(r.Intn(300)), 1)
+		growPiece(r, p.H2, "p", p.H1.End()+int64(r.Intn(300)), 1, p.PTxn)
 	}
 	p.LiveFrom = p.H2.End()
 	cur := p.H2.ReplID
@@ -400,7 +407,7 @@ func buildPlan(r *rand.Rand, c combo) (*plan, error) {
 		if hx.Base < 1 {
 			hx.Base = 1
 		}
-		growPiece(r, hx, "x", pivot+int64(100+r.Intn(200)), 2)
+		growPiece(r, hx, "x", pivot+int64(100+r.Intn(200)), 2, p.PTxn)
 		l, rr, ok := around(r, hx.boundaries(hx.Base, hx.End()), pivot, c.Prel)
 		if !ok {
 			return nil, infeasible{"no foreign range stands " + c.Prel + " to the position"}
